@@ -410,7 +410,7 @@ Plan gen(uint64_t seed, int tier) {
     if (d.req == OPUS_SET_BITRATE_REQUEST && r.chance(0.5)) v = (int)r.range(500, 200000);
     p.ops.push_back(mkop("CTL", {d.req, v}));
   };
-  auto push_src = [&]() { p.ops.push_back(mkop("SRC", {r.weighted({3, 1, 4, 2, 5, 3, 1, 1, 2, 1, 1, 1, 4, 1, 1, 2}), r.pick({60, 110, 220, 440, 1000, 3000, 7000}), r.pick({1, 10, 100, 300, 500, 900, 1000}), r.range(1, 1000), r.range(0, 1000)})); };
+  auto push_src = [&]() { p.ops.push_back(mkop("SRC", {r.weighted({3, 1, 4, 2, 5, 3, 1, 1, 2, 1, 1, 1, 4, 1, 1, 2}), r.pick({60, 110, 220, 440, 1000, 3000, 7000}), r.pick({1, 10, 100, 300, 500, 900, 1000, 1000, 1600, 2500}) /* beyond full scale: the 16-bit decode path then soft-clips, with memory from frame to frame */, r.range(1, 1000), r.range(0, 1000)})); };
   for (int i = (int)r.range(0, 4); i > 0; i--) push_ctl();
   if (hi_stereo) {
     // high-rate stereo presets: hard CBR / voice / FEC settings reach coding tools (dual stereo, hybrid folding, redundancy) that the
